@@ -71,6 +71,8 @@ ASSUMPTIONS = [
     'conjugate-gradient solves (rtol 1e-5, the accuracy the library works with) leave fit_regress, '
     'fit_regress_nn and fit_select short of the optimum by 1e-5 .. O(1), so spreads above 1e4 are outside '
     'the bound and nothing is claimed for them',
+    'dtype x provenance family: basis values are chosen exact in the dtype; laws are judged at 1e-9 (1e-6 for '
+    'a float32 basis); a model must use the RDMs it was handed by position, regardless of their rdm descriptors',
     'a 1-D sigma_k (variances) is accepted by compare() but documented for no fitter: fitters that '
     'accept it are judged, rejections are recorded in the evidence notes, not reported',
 ]
@@ -98,6 +100,11 @@ BOUNDS = {
                               'combination of data x {1e-8,1,1e6}, basis x {1e-8,1,1e6}, sigma_k x {1e-10,1,1e6} '
                               '(n_cond=5, k=3, stack of 2); 672 fits',
               'pattern descriptors': "'index', unsorted two-digit ints, six-digit ints 100000+j not ascending",
+              'basis dtype x provenance': 'every model class x {float64, float32, int64, 0/1 ints} x {ndarray, fresh '
+                                          'RDMs, RDMs by fancy indexing in non-identity order, by subset on a '
+                                          'non-contiguous rdm descriptor, by subsample with repeats}: all model laws '
+                                          'against the check\'s own copy of the rows BY POSITION + the closed-form '
+                                          'fitters (3 method/sigma_k x {None, bootstrap vector}); n_cond=5, k=3',
               'conditioning family': 'fit_regress, fit_regress_nn, fit_select x cosine_cov, corr_cov x sigma_k '
                                      'eigenvalue spread {1, 1e2, 1e3} x n_cond {8, 10} x k {2, 3} x {None, one '
                                      'bootstrap vector}, stack of 3; 144 fits',
@@ -113,6 +120,7 @@ BOUNDS = {
                  'start menu': 3,
                  'nnls grid family': 'all sets of 3 and of 4 RDMs (4 conditions, grid {0,1,2}) x fills x methods, '
                                      'every 10th set of 5, 5 conditions (105 RDMs): every 8th triple',
+                 'basis dtype x provenance': 'as quick, (n_cond, k) in {(4,3), (5,2), (5,3)}',
                  'conditioning family': 'as quick + fit_interpolate, spread 1e4, 3 problems (stack sizes 1-3, 3 fills)',
                  'scale family': 'as quick, 3 problems x every index multiset of the quick plan',
                  'pattern descriptors': "'index', unsorted two-digit ints, six-digit ints 100000+j not ascending",
@@ -315,6 +323,13 @@ def shards(tier, seed):
                         out.append({'kind': 'laws', 'cls': cls, 'n_cond': n_cond, 'k': k, 'rep': rep,
                                     'fill': fill})
     out.append({'kind': 'laws', 'cls': 'base'})
+    # E2: model laws + closed-form fits over basis dtype x provenance
+    for cls in ('fixed', 'select', 'weighted', 'interpolate'):
+        for n_cond, k in (((4, 3), (5, 2), (5, 3)) if thorough else ((5, 3),)):
+            for dtype in DTYPES:
+                for prov in PROVS:
+                    out.append({'kind': 'laws', 'cls': cls, 'n_cond': n_cond, 'k': 1 if cls == 'fixed' else k,
+                                'dtype': dtype, 'prov': prov})
     # G: high-volume non-negative least squares family: every set of k distinct RDMs of 1-d point
     #    configurations on a small grid as basis (distance-like, strongly correlated regressors:
     #    weights leave and re-enter the active set), judged against the brute-force optimum
@@ -1130,13 +1145,13 @@ def _laws(case, ctx):
     if cls == 'base':
         _laws_base(case, ctx)
         return
+    if 'prov' in case:
+        _laws_provenance(case, ctx)
+        return
     n, k, rep, fill = case['n_cond'], case['k'], case['rep'], case['fill']
     if cls == 'fixed' and k > 1 and rep != 'rdms':
         return        # a vector / matrix defines a single RDM
-    L = n * (n - 1) // 2
     masks = [[], [1]] if rep == 'rdms' or rep == 'vectors' else [[]]
-    klass = {'fixed': M.ModelFixed, 'select': M.ModelSelect, 'weighted': M.ModelWeighted,
-             'interpolate': M.ModelInterpolate}[cls]
     for mask in masks:
         basis, _ = _problem(ctx.seed, n, k, 1, fill, mask)
         sub = dict(case, mask=mask)
@@ -1159,6 +1174,133 @@ def _laws(case, ctx):
                     for e, (i, j) in enumerate(ref.pairs(n)):
                         mats[r, i, j] = mats[r, j, i] = B[r, e]
                 arg = mats[0] if cls == 'fixed' else mats
+            _law_suite(ctx, cls, arg, basis, expected_desc, n, k, sigp, sub, 1e-9)
+
+
+DTYPES = ('float64', 'float32', 'int64', 'int01')
+PROVS = ('ndarray', 'rdms', 'fancy', 'subset', 'subsample')
+SESS = [30, 10, 50, 20, 40, 60]          # rdm descriptor labels: distinct, not contiguous, unsorted
+
+
+def _dtype_values(seed, dtype, rows, L):
+    """`rows` distinct, non-constant RDM vectors whose values are exact in the dtype"""
+    g = rng_for(seed, 'c08dtype', dtype, rows, L)
+    out = []
+    while len(out) < rows:
+        if dtype == 'float64':
+            v = np.round(g.uniform(0.2, 2.0, size=L), 4)
+        elif dtype == 'float32':
+            v = np.round(g.uniform(0.2, 2.0, size=L) * 8) / 8          # exact in float32
+        elif dtype == 'int64':
+            v = g.integers(0, 7, size=L).astype(float)
+        else:
+            v = g.integers(0, 2, size=L).astype(float)               # categorical 0/1 RDM
+        if len(set(v.tolist())) < 2 or any(np.array_equal(v, o) for o in out):
+            continue
+        out.append(v)
+    return np.array(out)
+
+
+def _laws_provenance(case, ctx):
+    """model laws and fits for a basis of a given dtype and provenance: the model has to use the
+    RDMs it was handed BY POSITION, whatever their dtype and whatever their rdm descriptors say"""
+    from rsatoolbox.rdm import RDMs
+    cls, n, k, dtype, prov = case['cls'], case['n_cond'], case['k'], case['dtype'], case['prov']
+    L = n * (n - 1) // 2
+    P = k + 2
+    np_dtype = {'float64': np.float64, 'float32': np.float32, 'int64': np.int64, 'int01': np.int64}[dtype]
+    parent_vals = _dtype_values(ctx.seed, dtype, P, L)
+    rows = {'ndarray': list(range(k)), 'rdms': list(range(k)),
+            'fancy': list(range(k, 0, -1)),                       # non-identity order, without row 0
+            'subset': list(range(1, k + 1)),                      # labels of rows 1..k
+            'subsample': ([2, 0, 2, 1, 2] if cls != 'fixed' else [1])[:k]}[prov]       # with repeats
+    basis = parent_vals[rows].tolist()                            # the check's own copy, by position
+    sigp = 'Model%s|basis=%s,%s' % (cls.capitalize(), 'int' if dtype.startswith('int') else 'float',
+                                    {'ndarray': 'array', 'rdms': 'rdms'}.get(prov, 'derived-rdms'))
+    with ctx.guard(sigp, case):
+        expected_desc = {'index': list(range(n))}
+        if prov == 'ndarray':
+            arg = parent_vals[rows].astype(np_dtype)
+            if cls == 'fixed':
+                arg = arg[0]
+        else:
+            pdesc = {'stim': np.array(STIM[:n]), 'name': list(NAMES[:n])}
+            expected_desc = {'index': list(range(n)), 'stim': STIM[:n], 'name': NAMES[:n]}
+            src = parent_vals.astype(np_dtype) if prov != 'rdms' else parent_vals[rows].astype(np_dtype)
+            parent = RDMs(src, dissimilarity_measure='euclidean', pattern_descriptors=pdesc,
+                          rdm_descriptors={'sess': list(SESS[:len(src)])}, descriptors={'session': 3})
+            if prov == 'rdms':
+                arg = parent
+            elif prov == 'fancy':
+                arg = parent[rows]
+            elif prov == 'subset':
+                arg = parent.subset('sess', [SESS[r] for r in rows])
+            else:
+                arg = parent.subsample('sess', [SESS[r] for r in rows])
+            got_rows = np.asarray(arg.get_vectors(), dtype=float)
+            if got_rows.shape != (k, L) or not np.array_equal(got_rows, np.array(basis)):
+                ctx.exclude('derived RDMs object does not hold the expected rows (not a model question)')
+                return
+        tol = 1e-6 if dtype == 'float32' else 1e-9
+        m = _law_suite(ctx, cls, arg, basis, expected_desc, n, k, sigp, case, tol)
+        if m is not None and cls != 'fixed':
+            _provenance_fits(ctx, m, cls, basis, n, k, case, sigp)
+
+
+def _provenance_fits(ctx, model, cls, basis, n, k, case, sigp):
+    """the closed-form fitters on such a model, judged by the usual oracles against the check's own
+    copy of the basis"""
+    from rsatoolbox.rdm import RDMs
+    seed = ctx.seed
+    fitters = {'weighted': ('fit_regress', 'fit_regress_nn'), 'select': ('fit_select',),
+               'interpolate': ('fit_interpolate',)}[cls]
+    _, data_full = _problem(seed, n, 2, 2, 0, [])
+    boot = list(range(n - 1, 0, -1)) + [1]
+    for fitter in fitters:
+        for method, sigma in (('cosine', 'none'), ('corr', 'none'), ('corr_cov', 'spd')):
+            for idx in (None, boot):
+                fc = dict(case, fitter=fitter, method=method, sigma=sigma, idx=idx, n_data=2,
+                          normalize=True, desc='index')
+                positions = ref.select_positions(list(range(n)), idx)
+                data_sel = [ref.subsample(d, positions) for d in data_full]
+                sig_lib, sig_ref = _sigma(sigma, len(positions), seed)
+                S = {'model': model, 'data': RDMs(np.array(data_sel, dtype=float)), 'positions': positions,
+                     'data_sel': data_sel, 'basis': basis, 'data_full': data_full, 'kind': cls,
+                     'sig_lib': sig_lib, 'sig_ref': sig_ref,
+                     'pattern_idx': None if idx is None else np.array(idx),
+                     'pattern_descriptor': None if idx is None else 'index'}
+                if not _posed(fc, S):
+                    ctx.exclude(NOT_POSED)
+                    continue
+                if cls == 'weighted':
+                    sel = [ref.subsample(b, positions) for b in basis]
+                    if not ref.regressors_independent(method, sel):
+                        ctx.exclude('basis RDMs linearly dependent (weights not identified)')
+                        continue
+                elif any(ref.score_vector(method, ref.subsample(b, positions), data_sel, sig_ref) is None
+                         for b in basis):
+                    ctx.exclude('a candidate RDM is constant / zero on the selected conditions')
+                    continue
+                with ctx.guard('%s|%s,%s' % (fitter, _cfg(fc), sigp.split('|')[1]), fc):
+                    theta = _call(fc, S, seed, ctx=ctx)
+                    ctx.case(fc)
+                    if cls == 'weighted':
+                        _judge_weighted(fc, ctx, S, theta, fitter)
+                    else:
+                        _judge_candidates(fc, ctx, S, theta, fitter)
+
+
+def _law_suite(ctx, cls, arg, basis, expected_desc, n, k, sigp, sub, tol):
+    """build the model from `arg` and judge every model law against `basis` (the check's own copy of
+    the RDMs, by position); returns the model"""
+    from rsatoolbox.rdm import RDMs
+    from rsatoolbox import model as M
+    L = n * (n - 1) // 2
+    B = np.array(basis, dtype=float)
+    klass = {'fixed': M.ModelFixed, 'select': M.ModelSelect, 'weighted': M.ModelWeighted,
+             'interpolate': M.ModelInterpolate}[cls]
+    if True:
+        if True:
             m = klass('mod', arg)
             m2 = M.model_from_dict(m.to_dict())
             if type(m2) is not type(m) or m2.name != m.name or m2.n_param != m.n_param:
@@ -1174,15 +1316,15 @@ def _laws(case, ctx):
                 v = np.asarray(v, dtype=float)
                 rv = np.asarray(r.get_vectors(), dtype=float)
                 preds.append(v)
-                ctx.outcome((cls, rep, np.round(np.nan_to_num(v, nan=-9), 6).tolist()))
-                if rv.shape != (1, L) or v.shape != (L,) or not allclose(rv[0], v, 1e-12):
+                ctx.outcome((cls, sigp, np.round(np.nan_to_num(v, nan=-9), 6).tolist()))
+                if rv.shape != (1, L) or v.shape != (L,) or not allclose(rv[0], v, min(tol, 1e-12) if tol <= 1e-9 else tol):
                     ctx.fail(sigp + '|predict-differs-from-predict_rdm', c,
                              'predict %r, predict_rdm vectors %r' % (v, rv))
                 want = ref.predict(cls, basis, t)
                 if cls == 'fixed' and k > 1:
                     want = v          # which single RDM a stack defines is the class's choice
                 ctx.dev('predict vs reference', maxreldev(v, want))
-                if not allclose(v, want, 1e-9):
+                if not allclose(v, want, tol):
                     ctx.fail(sigp + '|predict-differs-from-weighted-sum', c, 'got %r want %r' % (v, want))
                 # descriptors carried
                 if r.n_cond != n:
@@ -1222,9 +1364,9 @@ def _laws(case, ctx):
                     lhs = np.asarray(m.predict(np.array(tc)), float)
                     rhs = a * preds[i] + b * preds[j]
                     lhs_r = np.asarray(m.predict_rdm(np.array(tc)).get_vectors()[0], float)
-                    if not allclose(lhs, rhs, 1e-9):
+                    if not allclose(lhs, rhs, tol):
                         ctx.fail(sigp + '|predict-not-linear', c, '%r vs %r' % (lhs, rhs))
-                    if not allclose(lhs_r, rhs, 1e-9):
+                    if not allclose(lhs_r, rhs, tol):
                         ctx.fail(sigp + '|predict_rdm-not-linear', c, '%r vs %r' % (lhs_r, rhs))
             # default fitter of the class
             if cls == 'fixed':
@@ -1233,6 +1375,7 @@ def _laws(case, ctx):
                 th = m.fit(RDMs(B))
                 if np.asarray(th).shape != (0,):
                     ctx.fail(sigp + '|fit-returns-parameters-for-parameter-free-model', c, repr(th))
+    return m
 
 
 def _laws_base(case, ctx):
